@@ -98,6 +98,29 @@ def run(ctx):
     for cname in ('UDP', 'TCP', 'IP', 'ICMP', 'EthernetII'):
         for n in (0, 1, 8, 36, 300):
             scripts.append(('k%s%d' % (cname, n), ['newc ' + cname] + (['raw x' + bytes(rng.randrange(256) for _ in range(n)).hex()] if n else []) + ['ser', 'ser']))
+    # options handed over as const lvalues whose length field is given explicitly (PDUOption(type, length, begin, end): "this can be
+    # different to std::distance(start, end)"): the cached size must count what is written, whatever the length field says
+    for cls, code in (('PPPoE', 0x0101), ('PPPoE', 0x0103), ('TCP', 8), ('IP', 7), ('DHCP', 12), ('DHCPv6', 1), ('ICMPv6', 1), ('Dot11Beacon', 0), ('Dot11ProbeResponse', 221)):
+        for n in (0, 1, 4, 6, 14, 30):
+            for ln in sorted(set([0, 1, max(0, n - 1), n, n + 1, n + 8])):
+                for two in (0, 1):
+                    d = bytes(rng.randrange(256) for _ in range(n))
+                    lines = ['new ' + cls, 'lopt 0 %d %d x%s' % (code, ln, d.hex())]
+                    if two:
+                        lines.append(rng.choice(['lopt 0 %d %d x%s' % (code, rng.randrange(0, 9), bytes(rng.randrange(256) for _ in range(rng.randrange(0, 9))).hex()), 'aopt 0 %d xaabb' % code]))
+                    scripts.append(('t%d' % len(scripts), lines + ['raw x5041594c4f414421', 'ser', 'ser']))
+    # IPv6 extension headers of every kind the class knows (Fragment included: its second octet is read and written as a length like
+    # the others'), bodies of 0..24 octets through the API and second octets 0..2 on the wire, in front of 0, 8 and 33 octets
+    for ty in (0, 43, 44, 51, 60, 135, 139, 140):
+        for n in range(0, 25):
+            pl = bytes(rng.randrange(256) for _ in range(rng.choice([0, 8, 8, 33])))
+            lines = ['new IPv6'] + (['ext6 0 60 x%s' % bytes(rng.randrange(256) for _ in range(rng.randrange(0, 12))).hex()] if rng.random() < 0.3 else []) + ['ext6 0 %d x%s' % (ty, bytes(rng.randrange(256) for _ in range(n)).hex())]
+            scripts.append(('x%d' % len(scripts), lines + (['raw x' + pl.hex()] if pl else []) + ['ser', 'ser']))
+        for l2 in (0, 1, 2):
+            for npl in (0, 8, 33):
+                body = bytes(rng.randrange(256) for _ in range(8 * l2 + 6))
+                y = bytes([0x60, 0, 0, 0]) + struct.pack('>HBB', 8 * l2 + 8 + npl, ty, 64) + bytes(range(32)) + bytes([59, l2]) + body + bytes(0xa0 + i % 16 for i in range(npl))
+                scripts.append(('m%d' % len(scripts), ['parse IPv6 x' + y.hex(), 'ser', 'rt IPv6']))
     # option histories (add / remove / replace, serialized in the middle and again at the end): the cached sizes must stay exact
     hs, _ = R4.option_histories(rng, 400 if quick else 8000)
     scripts += [('h' + sid, lines) for sid, lines in hs]
